@@ -21,6 +21,22 @@ theorem minTombstone_eq (s : Nat) (hs : 1 ≤ s ∧ s ≤ 8) : minTombstone s = 
 theorem minTombstone_spec (s : Nat) (hs : 1 ≤ s ∧ s ≤ 8) : minTombstone s = tombstone s := by
   rw [minTombstone_eq s hs]; rfl
 
+theorem addSized_eq (a len s : Nat) (hs : s ≤ 8) :
+    addSized a len s = if a + len < 2 ^ (8 * s) then .ok (a + len) else .err .rAddressOverflow := by
+  unfold addSized onesSized
+  have hp : 0 < 2 ^ (8 * s) := Nat.pow_pos (by decide)
+  have hle : 2 ^ (8 * s) ≤ 2 ^ 64 := Nat.pow_le_pow_right (by decide) (by omega)
+  by_cases h : a + len < 2 ^ (8 * s)
+  · have h1 : ¬ 2 ^ 64 ≤ a + len := by omega
+    have h2 : ¬ 2 ^ (8 * s) - 1 < a + len := by omega
+    simp only [h, h1, h2, if_true, if_false]
+  · simp only [h, if_false]
+    split
+    · rfl
+    · have h2 : 2 ^ (8 * s) - 1 < a + len := by omega
+      simp only [h2, if_true]
+
+
 /-! ## everything `convert_raw` lets through is non-empty and below the tombstones -/
 
 theorem keepRange_item (s base b e : Nat) (d : Bytes) (base' : Nat) (it : Item)
